@@ -143,6 +143,9 @@ NodeFits(G, r, np, id) ==
 TypeFits(G, rp, j) ==
   /\ ~G.rels[j].dead     \* deleted relationships keep their position (CypherUpdate) and match nothing
   /\ (Len(rp.types) = 0 \/ \E i \in 1..Len(rp.types) : rp.types[i] = G.rels[j].type)
+  (* an inline property map (literals; used by MERGE patterns): every listed key must be present and equal *)
+  /\ ("mprops" \notin DOMAIN rp
+      \/ \A i \in 1..Len(rp.mprops) : Eq3(PropIn(G.rels[j].props, rp.mprops[i][1]), rp.mprops[i][2][2]) = T)
 
 (* relationship instances leaving `cur` along rp's direction: set of <<j, other end>>.
    An undirected step over a self loop yields the loop once. *)
